@@ -156,7 +156,7 @@ class C13(Check):
     rule = (
         "cases: (a) histories of 0..12 (quick) / 0..30 (thorough) generated request documents (C01-C04 corpus: valid, failing, batch, "
         "rejected, non-JSON) served by one dispatcher, followed by a probe request whose response document and codes are compared with the "
-        "probe served by a fresh dispatcher built from the same spec - also for same-named functions with different annotations that share one PydanticValidator instance; (b) retention: N in {1, 10, 1000} dispatches, a fresh weak-"
+        "probe served by a fresh dispatcher built from the same spec - also for same-named functions with different annotations that share one PydanticValidator instance and for methods with different per-method arguments that share one JsonSchemaValidator instance; (b) retention: N in {1, 10, 1000} dispatches, a fresh weak-"
         "referenceable context object each, for function methods, class based view methods with and without a constructor context, a context-only method called without params and a context-free method x validator {base, jsonschema, pydantic} x "
         "sync / async x request kinds (ok, notification, raises, does not bind / validate, unknown, rejected, batch, non-JSON): after gc no "
         "context object and no view instance is alive; (c) 2..16 threads dispatching rotated corpora through one shared dispatcher with "
@@ -194,7 +194,8 @@ class C13(Check):
             st.sampled_from(['sync', 'async']), st.sampled_from(['base', 'jsonschema', 'pydantic']), st.sampled_from(['func', 'view', 'view-noctx']),
             st.sampled_from([1, 10, 10, 30]), st.lists(st.sampled_from(sorted(RETENTION_REQUESTS)), min_size=1, max_size=4),
         )
-        vcall = st.tuples(st.sampled_from(['users.get', 'posts.get', 'users.get_many']), st.sampled_from([[1], ['1'], ['x'], [[1, 2]], [None], [], [1.5], [{'a': 1}]]))
+        vcall = st.tuples(st.sampled_from(['users.get', 'posts.get', 'users.get_many', 'ip.strict', 'ip.lax', 'ip.lax']),
+                          st.sampled_from([[1], ['1'], ['x'], [[1, 2]], [None], [], [1.5], [{'a': 1}], ['1.2.3.4'], ['not-an-ip']]))
         vhistory = st.builds(lambda d, h, p, c: {'kind': 'vhistory', 'dispatcher': d, 'history': [list(x) for x in h], 'probe': list(p), 'coerce': c},
                              st.sampled_from(['sync', 'async']), st.lists(vcall, max_size=6), vcall, st.booleans())
         return st.one_of(hist('sync'), hist('async'), hist('sync'), hist('async'), retention, retention, threads('sync'), vhistory)
@@ -292,6 +293,18 @@ class C13(Check):
         d.add(make(int, 'users'), 'users.get')
         d.add(make(str, 'posts'), 'posts.get')
         d.add(make(L[int], 'many'), 'users.get_many')
+        # two methods sharing one JsonSchemaValidator instance, with different per-method validator arguments
+        import jsonschema
+        from pjrpc.server.validators import jsonschema as vj
+        jv = vj.JsonSchemaValidator()
+        schema = {'type': 'object', 'properties': {'ident': {'type': 'string', 'format': 'ipv4'}}, 'required': ['ident']}
+
+        def make_js(tag, **vargs):
+            ns = {}
+            exec(("async " if is_async else "") + f"def label(ident):\n    return ['{tag}', ident]\n", ns)
+            return jv.validate(ns['label'], schema=schema, **vargs)
+        d.add(make_js('strict', format_checker=jsonschema.FormatChecker()), 'ip.strict')
+        d.add(make_js('lax'), 'ip.lax')
         return d
 
     def _run_vhistory(self, spec) -> Outcome:
